@@ -296,13 +296,18 @@ func SubscribeWithReplay[T any](
 		}
 	}
 
-	// Load last offset for this subscription
-	lastOffset, _ := subStore.LoadOffset(ctx, subscriptionID)
+	// Load last offset for this subscription. A failed load must not be
+	// mistaken for "no saved offset": that would replay (and re-deliver) the
+	// whole log.
+	lastOffset, err := subStore.LoadOffset(ctx, subscriptionID)
+	if err != nil {
+		return fmt.Errorf("load subscription offset: %w", err)
+	}
 
 	// Replay missed events
 	// Use consistent type naming with EventType() function (respects TypeNamer)
 	typeName := typeNameOf[T]()
-	err := bus.Replay(ctx, lastOffset, func(stored *StoredEvent) error {
+	err = bus.Replay(ctx, lastOffset, func(stored *StoredEvent) error {
 		// Apply upcasts if available
 		eventData, eventTypeName := stored.Data, stored.Type
 		if bus.upcastRegistry != nil {
